@@ -21,6 +21,7 @@ type PropConfig struct {
 	Level      string   `json:"level"`
 	Bounded    []string `json:"bounded_standins"`
 	Undecided  []string `json:"not_decided"`
+	Unproved   []string `json:"unproved_obligations"` // obligations never discharged by this machinery (stated, not claimed): reported UNDECIDED
 }
 
 type KnownFinding struct {
@@ -474,6 +475,12 @@ func cmdCheck(args []string) int {
 					samples = append(samples, map[string]interface{}{"obligation": o.ID, "kind": o.Kind, "clause": o.Desc, "position": o.Pos,
 						"smt_bytes": len(o.Query), "solver": o.Result.Solver, "time_s": o.Result.Time})
 				}
+				continue
+			}
+			if pc != nil && hasProp(pc.Unproved, o.ID) {
+				fmt.Printf("UNDECIDED: property=%s %s (%s; listed as never proved by this machinery)\n", prop, o.ID, o.Result.Status)
+				undecided = append(undecided, o.ID+" ("+o.Result.Status+", never proved)")
+				nUndec++
 				continue
 			}
 			inBase := baseline != nil && baseline[o.ID]
